@@ -164,6 +164,7 @@ type Run struct {
 	StatsEnd   mqtt.RetryStats
 	HungCall   string // an API call that is not supposed to block did not return within 3 watchdogs
 	hung       int32
+	submMu     sync.Mutex
 	GoDump     string
 	Clients    map[int]*mqtt.BaseClient // by connection id
 	Cli        mqtt.Client
@@ -410,7 +411,6 @@ func Exec(sc *Scenario) *Run {
 			mqtt.WithUserNamePassword("user-é", "secret"), mqtt.WithKeepAlive(3600))
 	}
 
-	var submMu sync.Mutex
 	var stormStop chan struct{}
 	var stormWG sync.WaitGroup
 	// guard runs an API call that is not supposed to block for long; if it has not returned after three
@@ -579,9 +579,9 @@ func Exec(sc *Scenario) *Run {
 		case "wait":
 		}
 		sb.Accepted = sb.Err == nil && (st.Op == "pub" || st.Op == "sub" || st.Op == "unsub")
-		submMu.Lock()
+		r.submMu.Lock()
 		r.Subm = append(r.Subm, sb)
-		submMu.Unlock()
+		r.submMu.Unlock()
 		if st.Wait && sb.Accepted && !(st.Op == "pub" && st.QoS == 0) {
 			tr.WaitFor(Watchdog, func() bool { return AckConsumedLocked(tr, st.Key()) })
 		}
@@ -932,7 +932,7 @@ func (r *Run) waitSettled(retry *mqtt.RetryClient) {
 		left := r.Br.FaultsLeft()
 		down := r.Br.Down
 		done := true
-		for _, s := range r.Subm {
+		for _, s := range r.SubmSnapshot() {
 			if s.Accepted && !(s.Step.Op == "pub" && s.Step.QoS == 0) && ackCount(tr.Events, s.Step.Key()) == 0 {
 				done = false
 				break
@@ -1026,6 +1026,13 @@ func (r *Run) certifyStuck() bool {
 		}
 	}
 	return true
+}
+
+// SubmSnapshot returns the submissions recorded so far (handlers may still be submitting).
+func (r *Run) SubmSnapshot() []*Submission {
+	r.submMu.Lock()
+	defer r.submMu.Unlock()
+	return append([]*Submission{}, r.Subm...)
 }
 
 // safeStats is RetryClient.Stats with a guard: when the client's lock is held forever (which is what a stuck
